@@ -102,6 +102,14 @@ def _fmt_value(env, f):
     return v if isinstance(v, str) else None
 
 
+def _is_module_or_class_const(env, a):
+    from .rules.util import module_const
+
+    if isinstance(a, ast.Name):
+        return module_const(env.func, a.id) is not None and a.id not in env.func.params
+    return False
+
+
 def _pack_call(env, e):
     """(format expr, [value args]) when `e` packs with the struct module: struct.pack(fmt, ...), a precompiled
     `struct.Struct(fmt)` object's .pack(...), or a name bound once to such a bound method; else None."""
@@ -157,6 +165,11 @@ def _enc_block(env, stmts, acc):
             continue
         if isinstance(st, ast.Assign) and len(st.targets) == 1:
             t = st.targets[0]
+            if isinstance(t, ast.Name) and t.id in env.subst and not (isinstance(st.value, ast.Name) and st.value.id == t.id):
+                # a provenance-named local (loop element, grouped mapping) is re-bound: whatever is encoded from it
+                # afterwards is no longer "the caller's element as given"
+                env.subst[t.id] = "<rebound %s = %s>" % (t.id, env.canon(st.value))
+                continue
             if isinstance(t, ast.Name):
                 env.assigned.setdefault(t.id, []).append(st.value)
                 v = _enc_expr(env, st.value, acc, allow_none=True)
@@ -444,6 +457,9 @@ def _pack_terms(env, call):
             vals = env.scal.get(a.id) if isinstance(a, ast.Name) and a.id not in env.subst else None
             if vals is not None and len(vals) > 1:
                 out.append(("ALT", [(cond, [("P", CODES[c], v)]) for cond, v in vals]))
+            elif isinstance(a, (ast.Name, ast.Attribute)) and isinstance(_const(env, a), int) and not isinstance(_const(env, a), bool) and (
+                    not isinstance(a, ast.Name) or (a.id not in env.subst and a.id not in env.scal)) and _is_module_or_class_const(env, a):
+                out.append(("P", CODES[c], str(_const(env, a))))  # a named constant is the value it names
             else:
                 out.append(("P", CODES[c], env.canon(a)))
         return out
